@@ -1,2 +1,3 @@
 (* C03 runner: lazy == eager; the shared PacketCore glue does the work *)
 let registered = Registry.register "C03" Pcore_run.run
+let registered_coq = Registry.register_coq "C03" (Pcore_run.coq_header, Pcore_run.to_coq)
